@@ -7,6 +7,7 @@ import (
 	"fmt"
 	"os"
 	"os/exec"
+	"path/filepath"
 	"sort"
 	"strings"
 	"time"
@@ -27,6 +28,29 @@ var (
 type BatchInfo struct {
 	Programs []ProgInfo `json:"programs"`
 	Dropped  []string   `json:"dropped"`
+	// Failed: hand-written corpus programs (supported shapes only, all of them
+	// generate and compile on the tree the corpus was written for) for which no
+	// usable random-data file came out
+	Failed []FailedProg `json:"failed,omitempty"`
+}
+
+type FailedProg struct {
+	Name string `json:"name"`
+	Why  string `json:"why"`
+}
+
+// ParentPhase reports the corpus programs that got no random function at all.
+func (c *c15) ParentPhase(env *kernel.Env) kernel.PhaseResult {
+	var res kernel.PhaseResult
+	for i, f := range c.info.Failed {
+		v := kernel.Violation{Property: "C15", Clause: "no_random_function_for_supported_program", Signature: "corpus/" + f.Name,
+			Detail: fmt.Sprintf("corpus program %s is made of supported declarations only, yet the random-data generator gives nothing that can be called: %s", f.Name, f.Why)}
+		path := filepath.Join(kernel.ReplayDir(env), fmt.Sprintf("C15-corpus-%s-no-function.json", f.Name))
+		b, _ := json.MarshalIndent(map[string]any{"violation": v, "command": "./check C15 quick (the preparation step regenerates the corpus program " + f.Name + ")"}, "", " ")
+		os.WriteFile(path, b, 0o644)
+		res.Violations = append(res.Violations, kernel.Found{V: v, File: path, Case: kernel.Case{Index: 1<<30 + i}})
+	}
+	return res
 }
 
 type ProgInfo struct {
